@@ -391,8 +391,27 @@ func account(run *report.Run, c *Case) {
 		run.Count("coding:no")
 	}
 	run.Count("calls:" + strconv.Itoa(len(c.Seq.Ops)))
-	for _, o := range c.Seq.Ops {
+	for i, o := range c.Seq.Ops {
 		run.Count("kind:" + o.Kind)
+		if o.Kind == "hd" && strings.EqualFold(o.HName, "Content-Length") && o.Via != "del" && len(c.Real.Calls) == len(c.Seq.Ops) {
+			// a declared length against what the Response had counted when it was declared and at the end
+			d, err := strconv.Atoi(o.HValue)
+			at, end := c.Real.Calls[i].Length, c.Real.Calls[len(c.Real.Calls)-1].Length
+			switch {
+			case err != nil:
+				run.Count("declared-content-length:not-an-integer")
+			case d > end:
+				run.Count("declared-content-length:larger-than-all-that-is-written")
+			case d == end && end == 0:
+				run.Count("declared-content-length:zero,no-body")
+			case d == end:
+				run.Count("declared-content-length:equal-to-what-is-written")
+			case d >= at:
+				run.Count("declared-content-length:smaller-than-what-is-written,not-yet-reached-when-declared")
+			default:
+				run.Count("declared-content-length:smaller-than-what-was-already-written")
+			}
+		}
 	}
 	for _, t := range c.Tags {
 		run.Count("branch:" + t)
